@@ -53,8 +53,10 @@ func Repair(ff []Feature) []Feature {
 				for i, loc := range locs {
 					gg[indices[i]].Loc = loc
 				}
+				keep = append(keep, indices[:len(locs)]...)
+			} else {
+				keep = append(keep, indices...)
 			}
-			keep = append(keep, indices[:len(locs)]...)
 		}
 	}
 
